@@ -125,6 +125,20 @@ Fixpoint superseded_delivery (evs : list event) : bool :=
   | [] => false
   end.
 
+(* A session established with Clean Start 1 begins empty: by then the writes must have discarded
+   every subscription and in-flight message recorded for the client id (MQTT-3.1.2-4).  The marker
+   is recorded at OnSessionEstablished, after the broker has dropped the previous session. *)
+Definition session_leftover (c : bytes) (st : astate) : bool :=
+  existsb (fun e : sub_key * (subscription * N) => beq_bytes (fst (fst e)) c) (as_sub st) ||
+  existsb (fun e : ifm_key * (pkt * N) => beq_bytes (fst (fst e)) c) (as_ifm st).
+
+Fixpoint clean_start_leftover (st : astate) (evs : list event) : bool :=
+  match evs with
+  | [] => false
+  | ECleanStart c :: rest => session_leftover c st || clean_start_leftover st rest
+  | e :: rest => clean_start_leftover (fold_left astep (hook_awrites e) st) rest
+  end.
+
 (* ---------- specification ---------- *)
 
 (* C21 for one crash point: the restarted broker holds exactly the state the first k writes describe
@@ -132,4 +146,5 @@ Fixpoint superseded_delivery (evs : list event) : bool :=
    acknowledged before the crash is missing from those writes *)
 Definition crash_ok (maxcap : N) (evs : list event) (k : nat) (rs : rstate) : Prop :=
   restores maxcap rs (arun (firstn k (awrites_of evs))) /\
-  ack_before_write evs k = false /\ KF_C21_ack_before_forward evs k = false.
+  ack_before_write evs k = false /\ KF_C21_ack_before_forward evs k = false /\
+  clean_start_leftover astate0 evs = false.
